@@ -89,10 +89,20 @@ OvPay == {[req |-> << >>, pools |-> << >>],
           [req |-> << Pay(0, "zs", M - 1) >>, pools |-> << PM(0, "S") >>],
           [req |-> << Pay(0, "zs", 1) >>, pools |-> << PM(0, "S") >>]}
 OvChange == {<< >>, << Ch("S", M, FALSE) >>, << Ch("S", M - 1, FALSE) >>, << Ch("S", 1, FALSE) >>}
+\* the range test on the sum that includes a prior-step input: step 1 pays M - 1 to a transparent address,
+\* step 2 spends that payment together with 0, 1 or 2 units of its own
+OvFirst == Step(<< Pay(0, "t", M - 1) >>, << PM(0, "T") >>, << >>, << Note(1, "S", 0, M) >>, << >>, TRUE, << >>, 1, FALSE)
+OvSecond(tin, sin) ==
+    LET st0 == Step(<< >>, << >>, tin, sin, << Ref(0, "P", 0) >>, TRUE, << >>, 0, FALSE)
+        b   == BalFee(st0, << OvFirst >>)
+    IN [st0 EXCEPT !.fee = IF b > M THEN M ELSE b]
 GenOverflow ==
-    \E tin \in OvTin, sin \in OvSin, py \in OvPay, chg \in OvChange :
-       \E st \in WithFees(Step(py.req, py.pools, tin, sin, << >>, TRUE, chg, 0, FALSE), << >>, {0, 1}) :
-          c = Case("overflow", FALSE, << st >>, << 1 >>)
+    \/ \E tin \in OvTin, sin \in OvSin, py \in OvPay, chg \in OvChange :
+          \E st \in WithFees(Step(py.req, py.pools, tin, sin, << >>, TRUE, chg, 0, FALSE), << >>, {0, 1}) :
+             c = Case("overflow", FALSE, << st >>, << 1 >>)
+    \/ \E tin \in {<< >>, << Coin(2, 0, 1) >>, << Coin(2, 0, 2) >>},
+          sin \in {<< >>, << Note(2, "S", 0, 1) >>, << Note(2, "S", 0, 2) >>} :
+          c = Case("overflow", FALSE, << OvFirst, OvSecond(tin, sin) >>, << 1, 2 >>)
 
 (* slices "two" and "three": a fixed catalogue of chain outputs, so that an output has one value *)
 N1 == Note(1, "S", 0, 4)
@@ -113,7 +123,8 @@ TwFirst == {Step(<< PT(0, 2) >>, << PM(0, "T") >>, << >>, << N1 >>, << >>, TRUE,
             Step(<< PT(0, 1) >>, << PM(0, "T") >>, << C1 >>, << >>, << >>, FALSE, << >>, 1, FALSE),
             Step(<< >>, << >>, << >>, << N1 >>, << >>, TRUE, << Ch("T", 3, TRUE) >>, 1, FALSE)}
 TwOwn == {[tin |-> << >>, sin |-> << >>], [tin |-> << >>, sin |-> << N1 >>], [tin |-> << >>, sin |-> << N3 >>],
-          [tin |-> << >>, sin |-> << N2 >>], [tin |-> << C1 >>, sin |-> << >>]}
+          [tin |-> << >>, sin |-> << N2 >>], [tin |-> << C1 >>, sin |-> << >>],
+          [tin |-> << >>, sin |-> << N3, N3 >>], [tin |-> << C1, C1 >>, sin |-> << >>]}   \* the same output twice in one step
 TwSecond(prior, own, s0, d) ==
     Balanced(Step(<< PT(0, 1) >>, << PM(0, "T") >>, own.tin, own.sin, prior, TRUE, << >>, 0, FALSE), << s0 >>, d)
 TwPicks(steps) == IF BuildOk(steps, FALSE) THEN {<< 1, 2 >>, << 2 >>, << 2, 1 >>} ELSE {<< 1, 2 >>}
